@@ -4,6 +4,7 @@
   `Float` cannot be a lawful field, so the model takes its operations from this
   class instead of `[Field K]`.  Instances:
     * `Float`  (here)            — executable twin of manif's `double` instantiation (L1)
+    * `Float32` (here)           — executable twin of the `float` instantiation (C12, C19)
     * `Dual K` (Dual.lean)       — forward-mode dual numbers over any scalar
     * `ℝ`      (ManifProofs)     — theorems
   No Mathlib import anywhere under ManifModel/.
@@ -24,6 +25,22 @@ class Scalar (K : Type) extends Add K, Sub K, Mul K, Div K, Neg K where
   le    : K → K → Bool
   /-- `Constants<Scalar>::eps` = 100 * machine epsilon. -/
   eps   : K
+  /-- `cos(x)` / `sin(x)` called *unqualified where no using-declaration is in scope* (the
+      `SO2(theta)` and `SE2(x,y,theta)` constructors put `using std::cos;` in the constructor
+      body, after the mem-initialiser that makes the call): for `float` these resolve to
+      `::cos(double)`, i.e. the value is computed in double and rounded to `float`.  Every other
+      instance uses its own `cos`/`sin`. -/
+  cosUnq : K → K := cos
+  sinUnq : K → K := sin
+  /-- coefficient of `W²` in the Jacobian of `SO3::log`, as a function of `θ²` and `θ`:
+      `1/θ² − cos(θ/2) / (2 θ sin(θ/2))`.  `SO3Base::log` calls `cos`/`sin` *unqualified and
+      without a using-declaration*, so for `float` overload resolution picks `::cos(double)` /
+      `::sin(double)` from `<math.h>` and the usual arithmetic conversions evaluate the rest of
+      the expression in `double`, rounded to `float` once at the end.  Every other instance
+      (double, reals, dual numbers — whose `cos` is found by argument-dependent lookup) uses the
+      generic formula, which is the default. -/
+  so3LogJCoeff : K → K → K := fun theta2 theta =>
+    ofNat 1 / theta2 - cos (theta / ofNat 2) / (ofNat 2 * theta * sin (theta / ofNat 2))
 
 namespace Scalar
 variable {K : Type} [Scalar K]
@@ -53,6 +70,26 @@ instance : Scalar Float where
   lt a b := a < b
   le a b := a ≤ b
   eps := floatEps
+
+/-- machine epsilon of `float` times 100 = `Constants<float>::eps`. -/
+def float32Eps : Float32 := Float32.scaleB 100.0 (-23)
+
+/-- executable twin of manif's `float` instantiation (the same model code, single precision). -/
+instance : Scalar Float32 where
+  ofNat := Float32.ofNat
+  sin := Float32.sin
+  cos := Float32.cos
+  sqrt := Float32.sqrt
+  atan2 := Float32.atan2
+  abs := Float32.abs
+  lt a b := a < b
+  le a b := a ≤ b
+  eps := float32Eps
+  cosUnq x := (Float.cos x.toFloat).toFloat32
+  sinUnq x := (Float.sin x.toFloat).toFloat32
+  so3LogJCoeff theta2 theta :=
+    ((1 / theta2).toFloat -
+      Float.cos (theta / 2).toFloat / ((2 * theta).toFloat * Float.sin (theta / 2).toFloat)).toFloat32
 
 /-- Exceptions raised by manif, as the model reports them. -/
 inductive Err where
